@@ -47,7 +47,11 @@ from gen.triggers import TRIGGER, html_free
 from gen.timeout import time_limit
 
 NEEDS_DRIVER = False
-FINDINGS = []
+FINDINGS = [
+    {'id': 'F-C16-1', 'property': 'C16', 'status': 'fixed',
+     'what': 'tables: an escaped backslash directly before the closing border pipe of a row was deleted together with the border',
+     'witness': {'kind': 'table_end_border', 'text': '|a|b\\\\|\n|-|-|\n|c|d\\\\|'}},
+]
 _RE_REFDEF = re.compile(r'^\[[^\^\]][^\]]*\]: ', re.M)
 _RE_BRACKETS = re.compile(r'[\])`*_>] ?\[\^|\[\^[^\]]*\] ?[\[!`*_<\\]|\]\][`*_<!\\]|[`*_>)]\[\[')
 
@@ -271,7 +275,15 @@ def gen_tables(rng):
     def border_for(ncells):
         # a row needs at least one pipe; a single-column table needs a border on every row
         return rng.choice(['both', 'both', 'left', 'right'] if (k == 1 or ncells == 1) else ['none', 'none', 'both', 'left', 'right'])
+    def tailed(cell, last):
+        """let a cell END with 1-3 escaped backslashes / escaped pipes (a backslash pair shows one backslash, `\\|` shows the pipe and does
+        not split) -- above all the LAST cell of a row, where the closing border pipe follows with or without a space (F-C16-1)"""
+        if rng.random() >= (0.3 if last else 0.08): return cell
+        units = [rng.choice([('\\\\', '\\'), ('\\\\', '\\'), ('\\|', '|')]) for _ in range(rng.randint(1, 3))]
+        glue_ = rng.choice(['', '', ' ']) if cell[0] else ''
+        return cell[0] + glue_ + ''.join(u[0] for u in units), cell[1] + glue_ + ''.join(u[1] for u in units)
     head = [inline(rng, pipes=True) for _ in range(k)]
+    head = [tailed(c, i == k - 1) for i, c in enumerate(head)]
     seps = []
     for a in aligns:
         d = '-' * rng.choice([1, 2, 3, 5])
@@ -290,6 +302,7 @@ def gen_tables(rng):
         if hb == 'none': n = max(2, n)
         cells = [inline(rng, pipes=True) if rng.random() < 0.9 else ('', '') for _ in range(n)]
         if all(c[0] == '' for c in cells): cells[0] = inline(rng, simple=True)
+        cells = [tailed(c, i == n - 1) for i, c in enumerate(cells)]
         b = border_for(n) if hb != 'none' else 'none'
         if hb != 'none':
             if cells[0][0] == '' and b in ('none', 'right'): b = 'both'
@@ -893,6 +906,18 @@ def search(driver, rng, n):
 
 
 def replay(witness):
+    if witness.get('kind') == 'table_end_border':
+        # the last cell of the header row and of the body row must show the escaped backslash: `b\\` and `d\\`
+        import markdown
+        out = markdown.markdown(witness['text'], extensions=['tables'])
+        forest, err = H.try_read(out, 'xhtml')
+        if forest is None: return True
+        last = []
+        for tr in H.walk(forest):
+            if tr[1] == 'tr':
+                cells = [c for c in tr[3] if c[0] == 'e' and c[1] in ('th', 'td')]
+                if cells: last.append(H.text_of(cells[-1]))
+        return last != ['b\\', 'd\\']
     return False
 
 
